@@ -151,6 +151,57 @@ def real_simulators(ctx, n):
     return fails
 
 
+def branch_isolation(ctx, n):
+    """chain rule across branches on the real simulators: the instructions after a mid-circuit measurement act on every branch
+    separately.  (a) right after the measurement no two branches hold the same state object / share array memory (the engine
+    evolves branch states in place); (b) a gate conditioned on the outcome changes exactly the branches whose outcome meets
+    the condition: the joint shots=None distribution equals the one obtained by finishing every branch on its own copy."""
+    import numpy as np
+    import piquasso as pq
+    rng = np.random.default_rng(ctx.seed + 303)
+    fails = []
+    for it in range(n):
+        kind = ["passive-imperfect", "passive-pnm", "purefock-pnm"][it % 3]
+        th1, ph1, th2, ph2 = (float(x) for x in rng.uniform(0.2, 1.3, size=4))
+        D = np.triu(rng.uniform(0.1, 1.0, size=(3, 3))); D = D / D.sum(axis=0)
+        cls = pq.PureFockSimulator if kind == "purefock-pnm" else pq.PassiveSimulator
+        meas = (lambda: pq.ImperfectParticleNumberMeasurement(D)) if kind == "passive-imperfect" else (lambda: pq.ParticleNumberMeasurement())
+        head = lambda: [pq.StateVector([1, 1, 0]).on_modes(0, 1, 2), pq.Beamsplitter(theta=th1, phi=ph1).on_modes(0, 1),
+                        pq.Beamsplitter(theta=th2, phi=ph2).on_modes(1, 2), meas().on_modes(0)]
+        gate = lambda: pq.Beamsplitter(theta=0.9, phi=0.4)
+        desc = {"kind": kind, "angles": [th1, ph1, th2, ph2], "detector_efficiency_matrix": D.tolist() if kind == "passive-imperfect" else None}
+        ctx.count(("isolation", it), nontrivial=True)
+        try:
+            mk = lambda: cls(d=3, config=pq.Config(cutoff=4))
+            # (a) aliasing right after the measurement
+            r0 = mk().execute(pq.Program(instructions=head()), shots=None)
+            states = [b.state for b in r0.branches if b.state is not None]
+            if len({id(x) for x in states}) != len(states):
+                fails.append((f"branch-aliasing:{kind}", f"{kind}: {len(states) - len({id(x) for x in states})} branch(es) share their state object with another branch after the mid-circuit measurement", desc)); continue
+            # (b) joint run vs every branch finished on its own copy
+            joint = mk().execute(pq.Program(instructions=head() + [gate().on_modes(1, 2).when("x[0] == 1"), pq.ParticleNumberMeasurement().on_modes(1, 2)]), shots=None)
+            got = {}
+            for b in joint.branches:
+                k = tuple(int(x) for x in b.outcome); got[k] = got.get(k, 0.0) + float(b.frequency)
+            want = {}
+            for b in r0.branches:
+                if b.state is None or float(b.frequency) == 0.0:
+                    continue
+                x0 = int(b.outcome[0])
+                tail = ([gate().on_modes(0, 1)] if x0 == 1 else []) + [pq.ParticleNumberMeasurement().on_modes(0, 1)]
+                rb = cls(d=2, config=pq.Config(cutoff=4)).execute(pq.Program(instructions=tail), shots=None, initial_state=b.state.copy())
+                for bb in rb.branches:
+                    k = (x0,) + tuple(int(x) for x in bb.outcome); want[k] = want.get(k, 0.0) + float(b.frequency) * float(bb.frequency)
+            keys = set(got) | set(want)
+            worst = max(abs(got.get(k, 0.0) - want.get(k, 0.0)) for k in keys)
+            if worst > 1e-9:
+                kk = max(keys, key=lambda k: abs(got.get(k, 0.0) - want.get(k, 0.0)))
+                fails.append((f"branch-isolation:{kind}", f"{kind}: joint shots=None weight of outcome {kk} is {got.get(kk, 0.0):.9f}, finishing every branch on its own copy gives {want.get(kk, 0.0):.9f}", desc))
+        except Exception as e:
+            fails.append((f"branch-isolation-raise:{kind}:{type(e).__name__}", f"{kind}: {type(e).__name__}: {str(e)[:140]}", desc))
+    return fails
+
+
 def run(ctx):
     quick = ctx.tier == "quick"
     n_prog, n_real = (400, 60) if quick else (6000, 600)
@@ -172,7 +223,7 @@ def run(ctx):
     mism += shot_arithmetic(ctx, 60 if quick else 260)
     ctx.notes["input_distribution"] = dist
     ctx.notes["correspondence_mismatches"] = len(mism)
-    fails = real_simulators(ctx, n_real)
+    fails = real_simulators(ctx, n_real) + branch_isolation(ctx, 6 if quick else 90)
     for key, msg, inp in fails[:5]:
         ctx.fail(key, msg, inp)
     if mism:
